@@ -36,10 +36,110 @@ def run(ctx):
     rule_shared(ctx, repo)
     it = Interp(repo)
     retag(ctx, c06.rule_multisig, 'C05.M1', repo, it)
+    # acceptance of a correctly signed input runs through the verifier: the wrapper that picks the digest form, the steps of
+    # VerifyScript, the dispatch / operand counts / limits / truth of the result that the four templates execute
+    retag(ctx, c03.rule_wrapper, 'C05.P1', repo)
+    # which exception the convenience form raises is C03's concern (recorded there); here: it delegates with the caller's arguments
+    ctx.rules[-1].instances = [i for i in ctx.rules[-1].instances if not i.key.startswith('assert:')]
+    ctx.extra['_interp'] = it
+    retag(ctx, c06.rule_verify, 'C05.V1', repo, it)
+    retag(ctx, c06.rule_limits, 'C05.L1', repo, it)
+    retag(ctx, c06.rule_dispatch, 'C05.D1', repo, it)
+    retag(ctx, c06.rule_arity, 'C05.A1', repo, it)
+    ctx.extra.pop('_helpers', None)
+    retag(ctx, c06.rule_bool_pushes, 'C05.B1', repo, it)
+    retag(ctx, c06.rule_cast_to_bool, 'C05.B2', repo)
+    retag(ctx, c06.rule_hashes, 'C05.H1', repo, it)
+    ctx.extra.pop('_interp', None)
+    rule_entry(ctx, repo)
     retag(ctx, c13.rule_low_s, 'C05.S2', repo)
     ctx.not_decided += ['ECDSA itself (libcrypto)', 'acceptance over catalogues of edits as such: the commitment table is what decides which edits change the digest',
                         'FindAndDelete on arbitrary scripts; script evaluation of the templates (necessary conditions are decided under C06)']
     ctx.assume('a digest that depends on a field changes when the field changes (SHA-256 collision-freeness); ECDSA unforgeability')
+
+
+def rule_entry(ctx, repo):
+    """VerifySignature: the entry that looks the spent output up.  It may refuse only what the reference refuses (a guard
+    that refuses more turns a correctly signed input away), and it hands the verifier the spent output's script, the
+    spending transaction and the index as given."""
+    from . import c16
+    from ..rules import equiv
+    r = ctx.rule('C05.E1', 'VerifySignature refuses exactly the out-of-range / mismatching lookups and verifies (scriptSig, spent scriptPubKey, txTo, inIdx)', engine='RULES', floor=6)
+    fi = repo.get_function(EV + 'VerifySignature')
+    if fi is None:
+        r.undecided('entry', '', 'VerifySignature not found')
+        return
+    txf, txt, idx = fi.params[0], fi.params[1], fi.params[2]
+    once = {}
+    for n in walk_no_nested(fi.node):
+        if isinstance(n, ast.Assign) and len(n.targets) == 1 and isinstance(n.targets[0], ast.Name):
+            once.setdefault(n.targets[0].id, []).append(norm(n.value))
+    once = {k: v[0] for k, v in once.items() if len(v) == 1}
+
+    def through(t):
+        for _ in range(4):
+            t2 = re.sub(r'\b(%s)\b' % '|'.join(map(re.escape, once)), lambda m: '(%s)' % once[m.group(1)] if not once[m.group(1)].replace('.', '').replace('_', '').isalnum() else once[m.group(1)], t) if once else t
+            if t2 == t:
+                break
+            t = t2
+        try:
+            return ast.unparse(ast.parse(t, mode='eval'))
+        except SyntaxError:
+            return t
+    gs = [(through(g), c, n) for g, c, n in c16.guards_with_class(fi, repo)]
+    ref = [('index-negative', '%s < 0' % idx), ('index-range', '%s >= len(%s.vin)' % (idx, txt)),
+           ('prevout-negative', '%s.vin[%s].prevout.n < 0' % (txt, idx)), ('prevout-range', '%s.vin[%s].prevout.n >= len(%s.vout)' % (txt, idx, txf)),
+           ('prevout-hash', '%s.vin[%s].prevout.hash != %s.GetTxid()' % (txt, idx, txf))]
+    used = set()
+    for g, cls, n in gs:
+        hit = None
+        for key, want in ref:
+            if key in used:
+                continue
+            v = True if g == want else equiv(g, want)
+            if v is True:
+                hit = key
+                break
+        if hit is not None:
+            used.add(hit)
+            r.ok('guard:' + hit, common.site_of(fi, n), '`%s`' % g)
+            continue
+        # a guard the reference does not have in this form: the reference guard over the same quantities decides
+        def klass(t):
+            if 'prevout.hash' in t:
+                return 'prevout-hash'
+            if 'prevout.n' in t:
+                return 'prevout-range' if 'len(' in t else 'prevout-negative'
+            if re.search(r'\b%s\b' % re.escape(idx), t):
+                return 'index-range' if 'len(' in t else 'index-negative'
+            return None
+        k_ = klass(g)
+        if k_ is not None and k_ not in used:
+            used.add(k_)
+            v = equiv(g, dict(ref)[k_])
+            if v is False:
+                r.violated('guard:' + k_, common.site_of(fi, n), 'VerifySignature refuses when `%s`; the reference refuses when `%s`: correctly signed inputs outside the '
+                           'reference condition are turned away (or lookups inside it go through)' % (g, dict(ref)[k_]), sure=True)
+            else:
+                r.undecided('guard:' + k_, common.site_of(fi, n), 'the refusal `%s` was not compared with the reference `%s`' % (g, dict(ref)[k_]))
+        else:
+            r.undecided('guard:extra:%s' % g[:40], common.site_of(fi, n), 'a refusal `%s` that the reference entry does not have' % g)
+    for key, want in ref:
+        if key not in used:
+            r.undecided('guard:' + key, fi.site, 'no raising guard `%s` was recognised' % want)
+    calls = [c for c in common.iter_calls(fi.node) if norm(c.func) == 'VerifyScript']
+    if len(calls) != 1:
+        r.undecided('verifies', fi.site, '%d calls of VerifyScript' % len(calls))
+    else:
+        c = calls[0]
+        args = [through(norm(a)) for a in c.args] + ['%s=%s' % (k.arg, through(norm(k.value))) for k in c.keywords]
+        want = ['%s.vin[%s].scriptSig' % (txt, idx), '%s.vout[%s.vin[%s].prevout.n].scriptPubKey' % (txf, txt, idx), txt, idx]
+        if args == want:
+            r.ok('verifies', common.site_of(fi, c), 'VerifyScript(%s)' % ', '.join(args))
+        elif len(args) >= 4 and not c.keywords and all(re.match(r'^[\w.\[\]]+$', a) for a in args[:4]):
+            r.violated('verifies', common.site_of(fi, c), 'VerifySignature verifies (%s); the reference is (%s)' % (', '.join(args), ', '.join(want)), sure=True)
+        else:
+            r.undecided('verifies', common.site_of(fi, c), 'the arguments of VerifyScript (%s) were not recognised' % ', '.join(args))
 
 
 def assigns(fi):
@@ -171,4 +271,25 @@ def rule_shared(ctx, repo):
         for c in common.iter_calls(fi.node):
             if norm(c.func) == 'struct.pack' and len(c.args) == 2 and 'hashtype' in norm(c.args[1]).lower():
                 others.append(fi.qualname)
+    # a helper the confirmed tree does not have, called only from the digest functions themselves, is part of them
+    known = getattr(repo, 'known_functions', None)
+    if others and known is not None:
+        callers = {}
+        for fi in repo.functions.values():
+            for c in common.iter_calls(fi.node):
+                v = repo.fold(c.func, fi.module, cls=fi.cls)
+                if isinstance(v, FuncRef):
+                    callers.setdefault(v.info.qualname, set()).add(fi.qualname)
+        inner = {raw, 'bitcoin.core.script.SignatureHash'}
+        for _ in range(3):
+            for q in list(others):
+                if q not in known and callers.get(q) and callers[q] <= inner:
+                    inner.add(q)
+                elif q not in known and not callers.get(q) and q in repo.functions and common.inlined_away(repo, repo.functions[q]):
+                    inner.add(q)  # inlined into its only callers by the desugaring pre-pass
+        undecided_others = [q for q in others if q not in inner and q not in known]
+        others = [q for q in others if q not in inner and q in known]
+        if undecided_others and not others:
+            r.undecided('single-implementation', 'bitcoin/core/script.py:0', 'new function(s) %s pack a hash type and are called from outside the digest functions' % undecided_others)
+            return
     r.check(not others, 'single-implementation', 'bitcoin/core/script.py:0', 'no second legacy digest', 'another digest implementation packs a hash type in %s' % others)
